@@ -85,6 +85,7 @@ func init() {
 				{Scenario: "c04_range", Params: mustJSON(RangeParams{Commit: false}), Bound: 0},
 				{Scenario: "c04_range", Params: mustJSON(RangeParams{Commit: true, Still: true}), Bound: 0},
 				{Scenario: "c05_grow", Params: mustJSON(struct{}{}), Bound: 0, Note: "after a rebalance every save - also one issued through what is left of the previous session (the last tick of its schedule) - writes the positions the stream tracks NOW"},
+				{Scenario: "c05_windowcommit", Params: mustJSON(struct{}{}), Bound: 0, Note: "acknowledgements inside a rebalance window (of the next and of an OLDER event) followed by a Commit(): what the store holds never goes back"},
 				{Scenario: "c05_slowstore", Params: mustJSON(struct{}{}), Bound: 0, Note: "a second save requested while a slow one is in flight: the position acknowledged meanwhile is written by it (it is not folded into the save that dumped before the acknowledgement)"},
 				{Scenario: "c04_range", Params: mustJSON(RangeParams{Commit: true, Still: true, ReAck: true}), Bound: 0, Note: "an acknowledgement that was never saved (manual mode) is repeated on the same context after the rebalance: the position reaches the event, the tracker is told, the next save writes it"},
 				{Scenario: "c04_range", Params: mustJSON(RangeParams{Commit: true, DuringLoad: true}), Bound: 0, Note: "the late acknowledgement and the commit arrive while the re-opened session loads its checkpoints (the new assignment is already in effect)"},
